@@ -163,4 +163,15 @@ def updateOkb {T : Type} [BEq T] (gap : T) (tokens : List (List T)) (internal : 
     !(tokens.getD j []).contains gap) &&
   internal.all fun r => r.length == (internal.headD []).length
 
+/-! ### `Alignments._msa2col` (plain mode): the aligned rows of every cognate set written into one column
+
+`msas` are the multiple alignments per cognate set, each with the row ids of its members (`msa['ID']`)
+and one aligned row per member (`msa['alignment']`), in dictionary order; a word that is in no such set
+keeps its segments. -/
+
+def msa2col {T : Type} (ids : List Nat) (tokens : Nat → List T) (msas : List (List Nat × List (List T))) :
+    List (Nat × List T) :=
+  let assigns : List (Nat × List T) := msas.flatMap fun m => m.1.zip m.2     -- `tmp[idx] = msa['alignment'][i]`
+  ids.map fun k => (k, ((assigns.reverse.find? fun a => a.1 == k).map (·.2)).getD (tokens k))
+
 end Verif.MSA
